@@ -99,10 +99,16 @@ def rule_b(repo, rep):
             n_ok += 1
             # every offset must have been tested both ways and found in range
             for sym in ("S0", "E0", "S1", "E1"):
-                low = [d for t, d in p.decisions if re.search(rf"{sym}\[", t) and "< 0" in t]
-                high = [d for t, d in p.decisions if re.search(rf"{sym}\[", t) and "> BV(" in t]
-                rep.check(low == [False] and high == [False], "C02-b", site, f"accepting path tested {sym} >= 0 and {sym} <= limit",
-                          f"offset {sym}: negative test {low}, upper test {high} (an end of a range is not checked)")
+                low = high = None
+                for cnd, truth in p.conds:
+                    l, r, op = getattr(cnd, "left", None), getattr(cnd, "right", None), getattr(cnd, "op", None)
+                    if isinstance(l, BV) and Interp._pure_symbol(l) == sym:
+                        if op == "<" and r == 0 and truth is False:
+                            low = True
+                        if op in (">", ">=") and isinstance(r, BV) and Interp._pure_symbol(r) == "LIMIT" and truth is False:
+                            high = True
+                rep.check(bool(low) and bool(high), "C02-b", site, f"accepting path established {sym} >= 0 and {sym} <= limit (compared with the region's limit itself)",
+                          f"offset {sym}: lower bound {'ok' if low else 'not tested'}, upper bound {'ok' if high else 'not compared with the plain limit (weakened or missing)'}")
         else:
             nm = p.value.name if isinstance(p.value, AObj) else str(p.value)
             rep.check(nm == "VelaError" and p.decisions and p.decisions[-1][1] is True, "C02-b", site, f"out-of-range path ({p.decisions[-1][0][:50]}) raises VelaError", f"raises {nm}")
